@@ -27,8 +27,9 @@ type (
 	aHash    struct{ of int }
 	aHashStr struct{ of int }
 	aSign    struct {
-		s     int
-		bySub bool
+		s      int
+		bySub  bool
+		notMin bool // known not to be the most negative integer (that case was forked off when the value was made)
 	}
 	aInt    struct{ v int64 }
 	aBool   struct{ b bool }
@@ -78,6 +79,32 @@ func (ci *cmpInterp) rel(kind, x, y int) int {
 		return ci.sig[kind]
 	}
 	return -ci.sig[kind]
+}
+
+// choose consumes one nondeterministic choice of the current run.
+func (ci *cmpInterp) choose() bool {
+	if ci.nChoice >= len(ci.choices) {
+		ci.fail("more than %d overflow-sensitive steps in one comparator run", len(ci.choices))
+	}
+	c := ci.choices[ci.nChoice]
+	ci.nChoice++
+	return c
+}
+
+// minInt is the most negative value of int under the analysed build configuration.
+func (ci *cmpInterp) minInt() int64 {
+	if ci.p.Goarch == "386" || ci.p.Goarch == "arm" {
+		return -1 << 31
+	}
+	return -1 << 63
+}
+
+// wrap reduces an exact result to the width of int.
+func (ci *cmpInterp) wrap(v int64) int64 {
+	if ci.minInt() == -1<<31 {
+		return int64(int32(v))
+	}
+	return v
 }
 
 func signOf(v aval) (int, bool) {
@@ -294,10 +321,10 @@ func (ci *cmpInterp) instr(env map[ssa.Value]aval, v ssa.Value) aval {
 			return aUnknown{"load"}
 		case token.SUB:
 			if s, ok := in.(aSign); ok {
-				return aSign{-s.s, s.bySub}
+				return aSign{-s.s, s.bySub, false}
 			}
 			if i, ok := in.(aInt); ok {
-				return aInt{-i.v}
+				return aInt{ci.wrap(-i.v)}
 			}
 		case token.NOT:
 			if b, ok := in.(aBool); ok {
@@ -345,16 +372,19 @@ func (ci *cmpInterp) binop(x *ssa.BinOp, a, b aval) aval {
 				ci.usedSub = true
 				if s != 0 {
 					// overflow fork: consume one nondeterministic choice
-					ov := false
-					if ci.nChoice < len(ci.choices) {
-						ov = ci.choices[ci.nChoice]
-					}
-					ci.nChoice++
+					ov := ci.choose()
+					ms := s
 					if ov {
-						return aSign{-s, true}
+						ms = -s
 					}
+					// a negative machine result may be exactly the most negative integer (a difference of −2^(w−1)
+					// is representable, and a wrapped +2^(w−1) lands on it): the one value whose negation is itself
+					if ms < 0 && ci.choose() {
+						return aInt{ci.minInt()}
+					}
+					return aSign{ms, true, true}
 				}
-				return aSign{s, true}
+				return aSign{s, true, true}
 			case token.LSS:
 				return aBool{s < 0}
 			case token.LEQ:
@@ -378,7 +408,7 @@ func (ci *cmpInterp) binop(x *ssa.BinOp, a, b aval) aval {
 		switch x.Op {
 		case token.MUL:
 			if aExact && bExact {
-				return aInt{ia.v * ib.v}
+				return aInt{ci.wrap(ia.v * ib.v)}
 			}
 			bs := false
 			if s, ok := a.(aSign); ok {
@@ -387,7 +417,7 @@ func (ci *cmpInterp) binop(x *ssa.BinOp, a, b aval) aval {
 			if s, ok := b.(aSign); ok {
 				bs = bs || s.bySub
 			}
-			return aSign{sa * sb, bs}
+			return aSign{sa * sb, bs, false}
 		case token.EQL, token.NEQ, token.LSS, token.LEQ, token.GTR, token.GEQ:
 			// only comparisons whose outcome is determined by signs
 			var res *bool
@@ -438,6 +468,42 @@ func (ci *cmpInterp) binop(x *ssa.BinOp, a, b aval) aval {
 					set(0 >= sb)
 				}
 			}
+			// comparisons with the extreme integers
+			if res == nil && bExact && !aExact {
+				as, _ := a.(aSign)
+				switch {
+				case ib.v == ci.minInt():
+					switch x.Op {
+					case token.LSS:
+						set(false)
+					case token.GEQ:
+						set(true)
+					case token.EQL, token.LEQ:
+						if sa >= 0 || as.notMin {
+							set(false)
+						}
+					case token.NEQ, token.GTR:
+						if sa >= 0 || as.notMin {
+							set(true)
+						}
+					}
+				case ib.v == -(ci.minInt() + 1):
+					switch x.Op {
+					case token.GTR:
+						set(false)
+					case token.LEQ:
+						set(true)
+					case token.EQL, token.GEQ:
+						if sa <= 0 {
+							set(false)
+						}
+					case token.NEQ, token.LSS:
+						if sa <= 0 {
+							set(true)
+						}
+					}
+				}
+			}
 			if res != nil {
 				return aBool{*res}
 			}
@@ -445,9 +511,9 @@ func (ci *cmpInterp) binop(x *ssa.BinOp, a, b aval) aval {
 		case token.ADD, token.SUB:
 			if aExact && bExact {
 				if x.Op == token.ADD {
-					return aInt{ia.v + ib.v}
+					return aInt{ci.wrap(ia.v + ib.v)}
 				}
-				return aInt{ia.v - ib.v}
+				return aInt{ci.wrap(ia.v - ib.v)}
 			}
 			ci.fail("arithmetic %s on sign-only values at %s", x.Op, ci.p.Pos(x.Pos()))
 		}
@@ -517,14 +583,14 @@ func (ci *cmpInterp) call(env map[ssa.Value]aval, c *ssa.Call) aval {
 		a, oka := args[0].(aID)
 		b, okb := args[1].(aID)
 		if oka && okb {
-			return aSign{ci.rel(1, a.of, b.of), false}
+			return aSign{ci.rel(1, a.of, b.of), false, true}
 		}
 		ci.fail("bytes.Compare on non-id values at %s", ci.p.Pos(c.Pos()))
 	case full == "cmp.Compare" || strings.HasPrefix(full, "cmp.Compare["):
 		// three-way comparison of two times / two exact ints (no overflow possible)
 		if ta, ok := args[0].(aTime); ok {
 			if tb, ok := args[1].(aTime); ok {
-				return aSign{ci.rel(0, ta.of, tb.of), false}
+				return aSign{ci.rel(0, ta.of, tb.of), false, true}
 			}
 		}
 		if ia, ok := args[0].(aInt); ok {
@@ -543,7 +609,7 @@ func (ci *cmpInterp) call(env map[ssa.Value]aval, c *ssa.Call) aval {
 		a, oka := args[0].(aHashStr)
 		b, okb := args[1].(aHashStr)
 		if oka && okb {
-			return aSign{ci.rel(2, a.of, b.of), false}
+			return aSign{ci.rel(2, a.of, b.of), false, true}
 		}
 		ci.fail("strings.Compare on non-hash values at %s", ci.p.Pos(c.Pos()))
 	case strings.HasSuffix(full, "go-cid.Cid).String"):
@@ -602,8 +668,13 @@ type cmpResult struct {
 // runCmp evaluates fn (a comparator closure) on (A,B) under the sign triple, over all overflow choices.
 func runCmp(p *Prog, f aFn, sig [3]int, entryImp, clockImp *types.Named, less bool) (res cmpResult) {
 	var first *cmpResult
-	for mask := 0; mask < 8; mask++ {
-		choices := []bool{mask&1 != 0, mask&2 != 0, mask&4 != 0}
+	const nCh = 6
+	maxN := 0
+	for mask := 0; mask < 1<<nCh; mask++ {
+		choices := make([]bool, nCh)
+		for i := range choices {
+			choices[i] = mask&(1<<uint(i)) != 0
+		}
 		ci := &cmpInterp{p: p, sig: sig, choices: choices, entryImp: entryImp, clockImp: clockImp}
 		var out cmpResult
 		func() {
@@ -671,8 +742,11 @@ func runCmp(p *Prog, f aFn, sig [3]int, entryImp, clockImp *types.Named, less bo
 		if ci.nChoice <= 0 {
 			break // no overflow-sensitive subtraction executed: one run suffices
 		}
-		if mask+1 >= 1<<uint(minIntC(ci.nChoice, 3)) {
-			break
+		if ci.nChoice > maxN {
+			maxN = ci.nChoice
+		}
+		if mask+1 >= 1<<uint(minIntC(maxN, nCh)) {
+			break // every combination of the choices any run consumed has been executed
 		}
 	}
 	return *first
